@@ -208,7 +208,7 @@ func (p *sparser) implies() *Node {
 func (p *sparser) iff() *Node {
 	l := p.or()
 	// <==> scans as LSS EQL EQL GTR? "<==>" -> LEQ, EQL, GTR  ("<=" "=="? ) handle "<=" "=" ">"...
-	if p.peek().t == token.LEQ && p.peekAt(1).t == token.EQL && p.peekAt(2).t == token.GTR {
+	if p.peek().t == token.LEQ && p.peekAt(1).t == token.ASSIGN && p.peekAt(2).t == token.GTR {
 		p.next()
 		p.next()
 		p.next()
@@ -262,7 +262,7 @@ func (p *sparser) cmp() *Node {
 		p.next()
 		return &Node{Kind: "binop", Op: t.t.String(), Args: []*Node{l, p.add()}}
 	case token.LEQ:
-		if p.peekAt(1).t == token.EQL && p.peekAt(2).t == token.GTR { // <==>
+		if p.peekAt(1).t == token.ASSIGN && p.peekAt(2).t == token.GTR { // <==>
 			return l
 		}
 		p.next()
